@@ -18,6 +18,7 @@ type c03Cell struct {
 	Follower bool
 	Prior    bool // an earlier refresh of the same term whose store call stays blocked (request lost) while later ones succeed
 	Flap     bool // a health checker that answers unhealthy once, on the tick after the second failing attempt
+	MCF      int  // MaxConsecutiveFailures set although no health checker is configured (it must not matter)
 }
 
 var c03Faults = []string{"err-timeout", "err-noresponders", "err-closed", "hang", "acklost-once", "acklost-window", "partition-forever", "replaced", "replaced-canonical-other", "deleted"}
@@ -69,6 +70,9 @@ func c03Plan(c c03Cell, lat []time.Duration, phase time.Duration) *Plan {
 		p.Instances[0].Health = make([]int, c.K+2)
 		p.Instances[0].Health[c.K+1] = 1
 	}
+	if c.MCF != 0 && !c.Flap {
+		p.Instances[0].MCF = c.MCF
+	}
 	if c.Prior && c.K >= 3 {
 		// refresh #0 of the term never gets an answer within the run; the library times it out and carries on
 		p.HangFor = 10 * time.Minute
@@ -87,12 +91,15 @@ func c03Grid() []c03Cell {
 				for k := 1; k <= 6; k++ {
 					for _, f := range c03Faults {
 						for _, fol := range []bool{false, true} {
-							out = append(out, c03Cell{h, ratio, vi, k, f, fol, false, false})
+							out = append(out, c03Cell{h, ratio, vi, k, f, fol, false, false, 0})
 							if k >= 3 {
-								out = append(out, c03Cell{h, ratio, vi, k, f, fol, true, false})
+								out = append(out, c03Cell{h, ratio, vi, k, f, fol, true, false, 0})
 							}
 							if f == "err-timeout" || f == "hang" || f == "partition-forever" {
-								out = append(out, c03Cell{h, ratio, vi, k, f, fol, false, true})
+								out = append(out, c03Cell{h, ratio, vi, k, f, fol, false, true, 0})
+							}
+							if f == "err-timeout" || f == "hang" || f == "partition-forever" || f == "acklost-window" {
+								out = append(out, c03Cell{h, ratio, vi, k, f, fol, false, false, 1}, c03Cell{h, ratio, vi, k, f, fol, false, false, 8})
 							}
 						}
 					}
@@ -106,7 +113,7 @@ func c03Grid() []c03Cell {
 func TestC03(t *testing.T) {
 	grid := c03Grid()
 	RunCheck(t, CheckSpec{Prop: "C03",
-		Rule:        fmt.Sprintf("fault grid: heartbeat interval H in %v (time-out max(H/2,1s) switches at H=2s) x TTL/H in {3,5} x ValidationInterval in {default 5s, H, 3H} x attempt index k in 1..6 at which the fault begins x fault kind in %v x with/without a live follower x (for k>=3) with/without an earlier refresh of the term whose store call stays blocked for ever x (for the unreachable-store kinds) with/without a health checker that answers unhealthy once between the second and the third failing attempt = %d cells; thorough enumerates every cell (sharded) with a fixed latency vector and adds generated latencies and ticker phases; quick runs a seeded sample of cells with generated latencies. Oracle: exact virtual-time bounds of both clauses (next heartbeat attempt / t_c+H+2T; third consecutive failed attempt / last successful refresh + 3H+3T), OnDemote entered, and no heartbeat-caused demotion after fewer than three transient failures. Non-trivial = the plan produced a record change under a leader or three consecutive failed refreshes; distinct by plan hash.", c03Hs, c03Faults, len(grid)),
+		Rule:        fmt.Sprintf("fault grid: heartbeat interval H in %v (time-out max(H/2,1s) switches at H=2s) x TTL/H in {3,5} x ValidationInterval in {default 5s, H, 3H} x attempt index k in 1..6 at which the fault begins x fault kind in %v x with/without a live follower x (for k>=3) with/without an earlier refresh of the term whose store call stays blocked for ever x (for the unreachable-store kinds) with/without a health checker that answers unhealthy once between the second and the third failing attempt x (for those kinds and lost acknowledgements) MaxConsecutiveFailures in {unset, 1, 8} with no health checker configured = %d cells; thorough enumerates every cell (sharded) with a fixed latency vector and adds generated latencies and ticker phases; quick runs a seeded sample of cells with generated latencies. Oracle: exact virtual-time bounds of both clauses (next heartbeat attempt / t_c+H+2T; third consecutive failed attempt / last successful refresh + 3H+3T), OnDemote entered, and no heartbeat-caused demotion after fewer than three transient failures. Non-trivial = the plan produced a record change under a leader or three consecutive failed refreshes; distinct by plan hash.", c03Hs, c03Faults, len(grid)),
 		Assumptions: []string{"clause 1 is judged only for instances without injected link faults (the statement's 'store still answers')"},
 		Fixed: func() []*Plan {
 			if tier() != "thorough" {
